@@ -17,7 +17,7 @@ def js_string(total_len):
     return "x" * (total_len - 2)
 
 def points():
-    return ["api-start-input", "api-startsync-input", "pass-output", "pass-end-output", "task-reply", "task-end-reply", "task-reply-discarded", "invoke-reply-discarded", "task-reply-discarded-compact", "task-reply-discarded-padded",
+    return ["api-start-input", "api-startsync-input", "pass-output", "pass-end-output", "task-reply", "task-end-reply", "task-reply-discarded", "invoke-reply-discarded", "task-reply-discarded-compact", "task-reply-discarded-padded", "task-reply-discarded-orphan-replayed",
             "map-output", "parallel-output", "callback-output", "callback-raw", "callback-raw-discarded", "definition-create", "definition-update", "name-create", "name-start", "name-create-nl", "name-start-nl", "history", "history-retry"]
 
 def _case(args):
@@ -86,6 +86,25 @@ def _case(args):
             st_ = {"Type": "Task", "Resource": "arn:aws:states:local::rpcmessage:invoke", "Parameters": {"FunctionName": FA + "f", "Payload": 1}, "ResultPath": None, "Next": "Z"}
         w, api = world({"m": {"StartAt": "A", "States": {"A": st_, "Z": Z}}}, workers={"f": {"*": [["okstr", size]]}})
         w.script.append({"op": "start", "machine": "m", "name": "e", "input": {}})
+        w.run()
+        status, err = terminal(w, exec_arn("m", "e"))
+        got = ("accepted",) if status == "SUCCEEDED" else ("refused", err, status)
+        want_err = "States.DataLimitExceeded"
+    elif point == "task-reply-discarded-orphan-replayed":
+        # the engine restarts while the Task waits; the reply reaches the new instance *before* the redelivered Task event, is parked as an
+        # orphan and replayed once the Task has re-registered: the replayed reply is subject to the same quota
+        st_ = {"Type": "Task", "Resource": FA + "f", "ResultPath": None, "Next": "Z"}
+        w, api = world({"m": {"StartAt": "A0", "States": {"A0": {"Type": "Pass", "Next": "A"}, "A": st_, "Z": Z}}}, workers={"f": {"*": [["delay", ["okstr", size]]]}})
+        w.script.append({"op": "start", "machine": "m", "name": "e", "input": {}})
+        guard = 0
+        while not w.workers["f"].requests and guard < 100:
+            w.step(w.enabled()[0]); guard += 1
+        w.step(("crash", 1)); w.step(("restart", 1))
+        w.step(("wreply", "f"))
+        en = w.enabled()
+        reply = [e for e in en if e[0] == "deliver" and "reply_to" in e[1]]
+        if reply:
+            w.step(reply[0])        # the reply first: no pending request yet -> orphan
         w.run()
         status, err = terminal(w, exec_arn("m", "e"))
         got = ("accepted",) if status == "SUCCEEDED" else ("refused", err, status)
